@@ -81,13 +81,18 @@ func main() {
 	sort.SliceStable(scs, func(i, j int) bool { return slowRank(scs[i]) > slowRank(scs[j]) })
 
 	// ---- 3. play them
+	t0 := time.Now()
+	fmt.Fprintf(os.Stderr, "[c11] %d scenarios (%d replay scripts incl. racy variants, %d random)\n", len(scs), nReplay, nRandom)
 	results := runAll(bin, scs, 4)
+	fmt.Fprintf(os.Stderr, "[c11] sessions played in %.0fs\n", time.Since(t0).Seconds())
 
 	// ---- 4. verdicts
 	judge(c, bin, scs, results)
 
+	fmt.Fprintf(os.Stderr, "[c11] traces judged after %.0fs\n", time.Since(t0).Seconds())
 	// ---- 5. model checking results
 	for _, r := range <-mcDone {
+		fmt.Fprintf(os.Stderr, "[c11] mc %s: %d distinct / %d generated %.0fs %s\n", r.name, r.distinct, r.generated, r.wall, trunc(r.err, 300))
 		if r.err != "" {
 			vlib.Infra("TLC on %s: %s", r.name, r.err)
 		}
@@ -172,7 +177,7 @@ var (
 	tws      = map[string]string{"MCProto": `"tws"`}
 	hsGws    = map[string]string{"PreAcked": "FALSE", "Alphabet": "<- AlphaGwsFull", "MCInitFn": "TRUE", "MCInitTimeout": "TRUE", "MCCancel": "TRUE", "BadStarts": "TRUE"}
 	hsTws    = map[string]string{"PreAcked": "FALSE", "Alphabet": "<- AlphaTwsFull", "MCInitFn": "TRUE", "MCInitTimeout": "TRUE", "MCCancel": "TRUE", "BadStarts": "TRUE", "MCProto": `"tws"`}
-	pinned   = map[string]string{"FixDup": "FALSE", "FixDel": "FALSE", "FixInit": "FALSE"}
+	pinned   = map[string]string{"FixDup": "FALSE", "FixDel": "FALSE"}
 	detached = map[string]string{"MCDetached": "TRUE", "MCInitFn": "TRUE"}
 )
 
@@ -193,7 +198,8 @@ func mcVariants() []mcVariant {
 			set: map[string]string{"AllowDupStart": "TRUE", "INVARIANTS": "TypeOK Refines StopCancelsI"}},
 		{name: "pinned-restart-race", cfg: "MC_WsImpl_pinned.cfg", expect: "Invariant StopCancelsNoDup is violated",
 			set: map[string]string{"AllowDupStart": "TRUE", "INVARIANTS": "TypeOK Refines StopCancelsNoDup"}},
-		{name: "pinned-init-bad-payload", cfg: "MC_WsImpl_pinned.cfg", expect: "Invariant CloseOnceI is violated",
+		// (repaired in /repo by 930d13f; FixInit = FALSE is the old behaviour, which the model must still flag)
+		{name: "old-init-bad-payload", cfg: "MC_WsImpl_pinned.cfg", expect: "Invariant CloseOnceI is violated",
 			set: merge(hsGws, oneInst, map[string]string{"MaxMsgs": "2", "INVARIANTS": "TypeOK Refines CloseOnceI"})},
 		// thorough: longer scripts, two ids, two values per Source, tickers, ping/pong deadline
 		{name: "ops-gws-2ids-4msgs", cfg: S, thorough: true, set: merge(twoIds, map[string]string{"MaxMsgs": "4", "SrcKinds": "<- KindsEnd"})},
@@ -480,6 +486,7 @@ func scriptScenario(fam family, h histLine, id string) *Scenario {
 				st.Kind = "ok"
 				if e.A.K == 1 {
 					st.Kind = "bad"
+					st.Flavor = j + len(h.H)
 				}
 			case "stop":
 				st.ID = e.A.I
@@ -572,7 +579,7 @@ func randomScenario(rng *rand.Rand, id string) *Scenario {
 			} else {
 				live = append(live, inst)
 			}
-			sc.Steps = append(sc.Steps, Step{Op: "send", M: "start", ID: id, Inst: inst, Kind: kind, Sync: sync()})
+			sc.Steps = append(sc.Steps, Step{Op: "send", M: "start", ID: id, Inst: inst, Kind: kind, Flavor: rng.Intn(4), Sync: sync()})
 		case r < 56 && len(live) > 0:
 			i := rng.Intn(len(live))
 			cmd := pick("emit", "emit", "emit", "end", "end", "suberr", "panic")
@@ -986,10 +993,18 @@ func judge(c *vlib.Check, bin string, scs []*Scenario, results []*played) {
 	}
 	rejected := map[string]bool{}
 	devCount := map[string]int{}
+	// an absence already listed as an open finding is re-observed as such; anything else resting on an
+	// absence is confirmed by a second run of the whole scenario with longer waits
+	knownOpen := map[string]bool{}
+	for _, k := range vlib.LoadKnown("C11") {
+		if k.Status == "open" {
+			knownOpen[k.Key] = true
+		}
+	}
 	for _, r := range rej {
 		rejected[r.t.sc.ID] = true
 		key, detail := classify(c, r)
-		if strings.HasPrefix(key, "absent:") && !r.t.sc.Long {
+		if strings.HasPrefix(key, "absent:") && !r.t.sc.Long && !knownOpen[strings.TrimPrefix(key, "absent:")] {
 			// an absence verdict: confirm by playing the scenario again, alone, with 10x the waits
 			again := *r.t.sc
 			again.Long = true
@@ -1005,11 +1020,11 @@ func judge(c *vlib.Check, bin string, scs []*Scenario, results []*played) {
 				vlib.Infra("trace validation (confirmation): %v", err)
 			}
 			if len(rej2) == 0 {
-				c.Set("unconfirmed_"+r.t.sc.ID, key+" not reproduced with 10x waits (slow machine, no verdict)")
+				c.Set("unconfirmed_"+r.t.sc.ID, key+" not reproduced on the second run with longer waits (slow machine, no verdict)")
 				continue
 			}
 			key2, detail2 := classify(c, rej2[0])
-			key, detail = key2, detail2+"\n(confirmed by a second run with 10x waits)"
+			key, detail = key2, detail2+"\n(confirmed by a second run of the scenario with longer waits)"
 			key = strings.TrimPrefix(key, "absent:")
 		}
 		key = strings.TrimPrefix(key, "absent:")
